@@ -13,7 +13,8 @@ try:
         v=[l.split('obligation=')[1].split()[0] for l in out.splitlines() if l.startswith('VIOLATION')]
         det[c]={"exit":1 if v else 0,"failed_obligations":v[:6]}
 finally:
-    subprocess.run("git -C /repo checkout -- .",shell=True)
+    if subprocess.run("git -C /repo apply -R %s/patch.diff"%d,shell=True).returncode!=0:
+        subprocess.run("git -C /repo checkout -- .",shell=True)
 conf=json.load(open(d+'/confirm.json')) if os.path.exists(d+'/confirm.json') else {}
 meta={"property":sid[:3],"seed":sid,"breaks":open('/verif/seeded/%s/NOTES.md'%sid).read()[:1500] if os.path.exists(d+'/NOTES.md') else "",
  "needs_to_manifest":needs,
